@@ -421,6 +421,13 @@ def main(args: list[str]) -> int:
         return 1
 
     if formatted_errors := format_errors(errors, settings):
-        print(formatted_errors)
+        try:
+            print(formatted_errors)
+
+        except UnicodeEncodeError:  # pragma: no cover
+            # A quoted string literal can hold characters stdout cannot encode (ie, a lone surrogate)
+            encoding = sys.stdout.encoding or "utf-8"
+
+            print(formatted_errors.encode(encoding, "backslashreplace").decode(encoding))
 
     return 1 if errors else 0
